@@ -33,7 +33,10 @@ pub fn c01(out: &mut Out, ex: &mut Exec, seed: u64, thorough: bool) {
     for i in 0..n {
         // every fourth program uses labels with non-ASCII letters in both cases (keys go through Unicode upper-casing)
         NON_ASCII_LABELS.with(|c| c.set(i % 4 == 3));
+        // every third program may have two blocks that touch (one starts where another ends), in either source order
+        TOUCH_BLOCKS.with(|c| c.set(i % 3 == 1));
         let stmts = gen_single(&mut rng, 30, true);
+        TOUCH_BLOCKS.with(|c| c.set(false));
         let exp = expected(&stmts);
         let text = render(&mut rng, &stmts);
         let dbg = i % 2;
@@ -63,7 +66,10 @@ pub fn c02(out: &mut Out, ex: &mut Exec, seed: u64, thorough: bool, check_spans:
     for i in 0..n {
         // every fourth program uses labels with non-ASCII letters (not in the span-checking variant: finding F21 has its own stream)
         if !check_spans { NON_ASCII_LABELS.with(|c| c.set(i % 4 == 3)); }
+        NON_ASCII_LITERALS.with(|c| c.set(i % 2 == 1));
+        TOUCH_BLOCKS.with(|c| c.set(i % 3 == 1));
         let mut stmts = gen_single(&mut rng, 14, true);
+        TOUCH_BLOCKS.with(|c| c.set(false));
         let mut nf = match i % 5 { 0 => 0, 1 | 2 | 3 => 1, _ => 2 + rng.below(2) };
         // a name both declared `.external` and defined at x0000 is bound to one address only (an external declaration
         // counts as address 0): well-formed, in either order of declaration and definition
@@ -273,8 +279,35 @@ pub fn c24(out: &mut Out, ex: &mut Exec, seed: u64, thorough: bool) {
         for probe in [0u16, 0x2FFF, 0xFFFF] { if !addrs.contains(&probe) { let r2 = run(out, ex, &format!("oq s revline {:04x}", probe)); if r2 != "none" { out.fail(out.lines, format!("rev_lookup_line({:04x}) = {r2} for an address no statement starts at", probe), line.clone()); } } }
         if stmts.iter().any(|s| mn(s) == ".EXTERNAL") { out.hist.hit("with_external"); }
         if seen.insert(text.clone()) { out.nontrivial += 1; }
+        // every fourth case: two files assembled with debug symbols and linked; the merged source is first + LF + second, so
+        // the second file's statements sit count_lines(first) lines further down (also when the first text ends in a line
+        // break or is empty of statements' trailing lines)
+        if i % 4 == 1 {
+            let na = fresh_names(&mut rng, 2, &[]); let nb = fresh_names(&mut rng, 2, &na);
+            let fa = gen_file(&mut rng, &FileCfg { origins: vec![0x3000, 0x3400], names: na, externals: vec![], max_stmts: 8, data_bias: 3 });
+            let fb = gen_file(&mut rng, &FileCfg { origins: vec![0x5000, 0x5400], names: nb, externals: vec![], max_stmts: 8, data_bias: 3 });
+            let (ta, tb) = (render(&mut rng, &fa), render(&mut rng, &fb));
+            let l1 = format!("asm la 1 {}", hx(&ta)); let l2 = format!("asm lb 1 {}", hx(&tb)); let l3 = "link lk la lb".to_string();
+            let (r1, r2) = (run(out, ex, &l1), run(out, ex, &l2)); let r3 = run(out, ex, &l3); out.evaluations += 1;
+            let pre = format!("{l1}\n{l2}\n{l3}");
+            if !(r1.starts_with("ok ") && r2.starts_with("ok ") && r3.starts_with("ok ")) { out.fail(out.lines, format!("two well-formed disjoint files did not assemble/link: {} / {} / {}", r1.chars().take(40).collect::<String>(), r2.chars().take(40).collect::<String>(), r3.chars().take(40).collect::<String>()), pre.clone()); continue; }
+            let mut want: BTreeMap<usize, u16> = BTreeMap::new();
+            let shift = ta.matches('\n').count() + 1;
+            for (f, tx, off) in [(&fa, &ta, 0usize), (&fb, &tb, shift)] {
+                let lay = layout(f); let ast = lc3_ensemble::parse::parse_ast(tx).expect("parsed above");
+                for (k, (s, st)) in f.iter().zip(ast.iter()).enumerate() { if s.size > 0 { want.insert(off + tx[..st.span.start].matches('\n').count(), lay.addr[k].unwrap() as u16); } }
+            }
+            let got: BTreeMap<usize, u16> = dump_lines(&r3).into_iter().collect();
+            if got != want { out.fail(out.lines, format!("line map of the linked file {:?} differs from statements-with-memory {:?} (first source {:?})", got, want, ta), pre.clone()); }
+            let nlines = shift + tb.matches('\n').count() + 1;
+            for ln in 0..nlines + 2 { let a = run(out, ex, &format!("oq lk line {ln}")); out.evaluations += 1;
+                let w = want.get(&ln).map(|a| format!("{:04x}", a)).unwrap_or("none".into());
+                if a != w { out.fail(out.lines, format!("linked: lookup_line({ln}) = {a}, expected {w}"), format!("{pre}\noq lk line {ln}")); } }
+            for (ln, a) in &want { let r2 = run(out, ex, &format!("oq lk revline {:04x}", a)); out.evaluations += 1; if r2 != ln.to_string() { out.fail(out.lines, format!("linked: rev_lookup_line({:04x}) = {r2}, expected {ln}", a), format!("{pre}\noq lk revline {:04x}", a)); } }
+            out.hist.hit("linked_pair"); if ta.ends_with('\n') { out.hist.hit("linked_first_ends_with_newline"); }
+        }
     }
-    out.rule = "generated programs (statements on varied lines, label-only lines, comments, blank lines, CRLF, .blkw/.stringz of varied sizes, .external inside and outside blocks), assembled with debug symbols; oracle: the line map equals {line of each statement that occupies memory -> its first address} (lines from the parser's spans, addresses from the reference layout), is injective, lookup_line/rev_lookup_line agree with it for every line (+2 past the end) and every mapped address; everything also compared with the model".into();
+    out.rule = "generated programs (statements on varied lines, label-only lines, comments, blank lines, CRLF, .blkw/.stringz of varied sizes, .external inside and outside blocks), assembled with debug symbols; oracle: the line map equals {line of each statement that occupies memory -> its first address} (lines from the parser's spans, addresses from the reference layout), is injective, lookup_line/rev_lookup_line agree with it for every line (+2 past the end) and every mapped address; every fourth case two such files are linked and the same is required of the merged table (second file's lines shifted by the first text's line count); everything also compared with the model".into();
 }
 
 /// C21: external references never silently unresolved
@@ -314,10 +347,42 @@ pub fn c21(out: &mut Out, ex: &mut Exec, seed: u64, thorough: bool) {
         if !dump_rel(&r3).is_empty() { out.fail(out.lines, format!("relocations still pending after linking the definer: {:?}", dump_rel(&r3)), format!("{l1}\n{l2}\n{l3}")); }
         run(out, ex, "sim new 0 0 0 0 0"); let ld2 = run(out, ex, "oload k"); out.evaluations += 1;
         if ld2 != "ok" { out.fail(out.lines, format!("loading the fully linked file answered `{ld2}`"), format!("{l1}\n{l2}\n{l3}\nsim new 0 0 0 0 0\noload k")); }
+        // every third case: a second user of the same externals; the two users are linked with each other first (the labels
+        // stay external, the relocation entries of both are pending), then the definer is linked in, on either side
+        if i % 3 == 0 {
+            let mut avoid = names.clone(); avoid.extend(externals.iter().cloned());
+            let names2 = fresh_names(&mut rng, 1, &avoid);
+            let mut user2 = gen_file(&mut rng, &FileCfg { origins: vec![0x4000], names: names2, externals: externals.clone(), max_stmts: 8, data_bias: 4 });
+            for e in &externals { if !user2.iter().any(|s| mn(s) == ".FILL" && matches!(&s.ops[0], Op::Lbl(n) if up(n) == up(e))) { let pos = user2.iter().rposition(|s| mn(s) == ".END").unwrap(); user2.insert(pos, GStmt { labels: vec![], mnem: ".fill".into(), ops: vec![Op::Lbl(e.clone())], size: 1 }); } }
+            let exp2 = expected(&user2); let u2text = render(&mut rng, &user2);
+            let l4 = format!("asm u2 {dbg} {}", hx(&u2text)); let r4 = run(out, ex, &l4); out.evaluations += 1;
+            if r4.starts_with("ok ") {
+                let (a, b) = if rng.bool() { ("u", "u2") } else { ("u2", "u") };
+                let l5 = format!("link w {a} {b}"); let r5 = run(out, ex, &l5); out.evaluations += 1;
+                let pre = format!("{l1}\n{l2}\n{l4}\n{l5}");
+                if !r5.starts_with("ok ") { out.fail(out.lines, format!("link of two users of the same externals failed: {r5}"), pre.clone()); }
+                else {
+                    let mut want: Vec<(u16, String)> = exp.rel.iter().cloned().chain(exp2.rel.iter().cloned()).collect(); want.sort();
+                    let mut got = dump_rel(&r5); got.sort();
+                    if got != want { out.fail(out.lines, format!("after linking two users the pending relocations are {:?}, expected {:?}", got, want), pre.clone()); }
+                    let (a, b) = if rng.bool() { ("w", "d") } else { ("d", "w") };
+                    let l6 = format!("link k2 {a} {b}"); let r6 = run(out, ex, &l6); out.evaluations += 1;
+                    if !r6.starts_with("ok ") { out.fail(out.lines, format!("link of the two users with the definer failed: {r6}"), format!("{pre}\n{l6}")); }
+                    else {
+                        let img = image_of(&r6);
+                        for (addr, name) in &want { let w = dexp.labels[name].0; if img.get(addr) != Some(&Some(w)) { out.fail(out.lines, format!("two users linked first, then the definer: word x{:04X} (.fill {name}) holds {:?}, expected x{:04X} (debug={dbg})", addr, img.get(addr), w), format!("{pre}\n{l6}")); } }
+                        if !dump_rel(&r6).is_empty() { out.fail(out.lines, format!("relocations still pending after linking the definer to two users: {:?}", dump_rel(&r6)), format!("{pre}\n{l6}")); }
+                        run(out, ex, "sim new 0 0 0 0 0"); let ld3 = run(out, ex, "oload k2"); out.evaluations += 1;
+                        if ld3 != "ok" { out.fail(out.lines, format!("loading (user+user)+definer answered `{ld3}`"), format!("{pre}\n{l6}\nsim new 0 0 0 0 0\noload k2")); }
+                        out.hist.hit("two_users_then_definer");
+                    }
+                }
+            } else { out.fail(out.lines, format!("second user rejected: {r4} :: {u2text:?}"), l4.clone()); }
+        }
         if seen.insert(utext.clone()) { out.nontrivial += 1; }
         if out.samples.len() < 3 { let mut j = Json::obj(); j.set("user", Json::s(utext)); j.set("definer", Json::s(dtext)); out.sample(j); }
     }
-    out.rule = "generated programs with 1-2 .external declarations placed before, between or after their .fill uses (inside or outside blocks), assembled with and without debug symbols; oracle: a relocation entry exists for exactly the .fill words of external labels, loading fails with UnresolvedExternal, after linking (either order) with a generated definer every such word holds the label's address, no relocation is left and loading succeeds; all dumps compared with the model".into();
+    out.rule = "generated programs with 1-2 .external declarations placed before, between or after their .fill uses (inside or outside blocks), assembled with and without debug symbols; oracle: a relocation entry exists for exactly the .fill words of external labels, loading fails with UnresolvedExternal, after linking (either order) with a generated definer every such word holds the label's address, no relocation is left and loading succeeds; every third case a second user of the same externals is linked to the first user before the definer (both users' entries pending, then all resolved); all dumps compared with the model".into();
 }
 
 pub fn parse_blocks(f: &str) -> Vec<(u16, Vec<Option<u16>>)> {
@@ -542,7 +607,21 @@ pub fn c17(out: &mut Out, ex: &mut Exec, seed: u64, thorough: bool, text_fmt: bo
         if orig.contains("S[none]") { out.hist.hit("no_symbol_table"); } else if orig.contains("D[none]") { out.hist.hit("symbols_without_debug"); } else { out.hist.hit("debug_symbols"); }
         out.nontrivial += 1;
     }
-    out.rule = format!("object files from generated programs (externals, .external anywhere, .blkw, several blocks; sources with comments and blank lines holding quotes, backslashes, tabs, CR, NUL, DEL, NBSP, U+2028, non-ASCII and emoji; CRLF; whitespace-only lines), assembled with and without debug symbols, tiny/empty programs, and results of linking 2-3 files; {} serialization compared with the model's, read back by implementation and model; oracle: the object read back equals the original (dump of blocks, labels with source positions and external flags, relocations, line map, source text) and PartialEq on the implementation", if text_fmt { "text" } else { "binary (label and relocation chunks sorted, their order is unspecified)" });
+    // long runs: one block of 32767 / 32768 / 40000 consecutive one-word statements assembled with debug symbols (a line
+    // block and a code block whose lengths need the upper half of a u16); made on the implementation only (the object is
+    // not sent through the line protocol), oracle: deserialize(serialize(o)) == o
+    for nst in [32767usize, 32768, 40000] {
+        let mut src = String::with_capacity(nst * 14 + 32); src.push_str(".orig x3000\n"); for _ in 0..nst { src.push_str("ADD R0,R0,#0\n"); } src.push_str(".end\n");
+        let r = ex.line(&format!("asm g 1 {}", hx(&src))); out.evaluations += 1;
+        if !r.starts_with("ok ") { out.fail(out.lines, format!("a block of {nst} statements was not assembled: {}", r.chars().take(80).collect::<String>()), format!("long block {nst}")); continue; }
+        if let Some(o) = ex.objs.get("g") {
+            use lc3_ensemble::asm::encoding::{BinaryFormat, ObjFileFormat, TextFormat};
+            let same = crate::util::catch(|| if text_fmt { TextFormat::deserialize(&TextFormat::serialize(o)).as_ref() == Some(o) } else { BinaryFormat::deserialize(&BinaryFormat::serialize(o)).as_ref() == Some(o) });
+            if same != Ok(true) { out.fail(out.lines, format!("deserialize(serialize(o)) != o on the implementation for a block of {nst} consecutive statements: {:?}", same), format!("long block {nst}")); }
+            else { out.hist.hit("roundtrip_long_block"); }
+        }
+    }
+    out.rule = format!("object files from generated programs (externals, .external anywhere, .blkw, several blocks; sources with comments and blank lines holding quotes, backslashes, tabs, CR, NUL, DEL, NBSP, U+2028, non-ASCII and emoji; CRLF; whitespace-only lines), assembled with and without debug symbols, tiny/empty programs, and results of linking 2-3 files; {} serialization compared with the model's, read back by implementation and model; oracle: the object read back equals the original (dump of blocks, labels with source positions and external flags, relocations, line map, source text) and PartialEq on the implementation; plus three long single-block programs (32767, 32768, 40000 statements) round-tripped on the implementation only", if text_fmt { "text" } else { "binary (label and relocation chunks sorted, their order is unspecified)" });
 }
 
 /// C19: reading untrusted object files never panics (nor does using what was read)
